@@ -73,8 +73,7 @@ func baseDoFile(L *LState) int {
 	top := L.GetTop()
 	fn, err := L.LoadFile(src)
 	if err != nil {
-		L.Push(LString(err.Error()))
-		L.Panic(L)
+		L.Error(LString(err.Error()), 0)
 	}
 	L.Push(fn)
 	L.Call(0, MultRet)
